@@ -3,9 +3,11 @@ package rules
 import (
 	"fmt"
 	"go/token"
+	"sort"
 	"strings"
 
 	"crverif/internal/an"
+	"crverif/internal/load"
 
 	"golang.org/x/tools/go/ssa"
 )
@@ -88,6 +90,7 @@ func runC18(c *Ctx) {
 		return
 	}
 	fn := c.fname(h)
+	c18NoPanic(c)
 	c.R.Check(h.Signature.Results().Len() == 0, "R-C18-3", fn+":no-result", fn, c.pos(h.Pos()), fmt.Sprintf("%d results", h.Signature.Results().Len()), "the monitor handler cannot fail", "monitor can fail on a message")
 	ps := c.pathsO("R-C18-1", h, an.PathOpts{EmitCut: true})
 	isRA := func(e *an.Expr) bool {
@@ -251,4 +254,41 @@ func runC18(c *Ctx) {
 				"handle(msg.Message, msg.Host.String()) exactly once, callback returns nil", "a message is not reported, reported twice, or can stop the monitor")
 		}
 	}
+}
+
+// c18NoPanic (R-C18-3): "the monitor never fails" on any received message: no
+// panic statement (and no call of an always-panicking helper) is reachable
+// from Monitor.handle through the module's own functions. Received messages
+// are attacker-controlled wire data; an assertion that holds for validated
+// configuration does not hold for them.
+func c18NoPanic(c *Ctx) {
+	h := c.P.Method("internal/corerad", "Monitor", "handle")
+	if h == nil {
+		return
+	}
+	reach := an.ModuleReach([]*ssa.Function{h}, load.InModule, nil)
+	var fns []*ssa.Function
+	for f := range reach {
+		fns = append(fns, f)
+	}
+	sort.Slice(fns, func(i, j int) bool { return fns[i].String() < fns[j].String() })
+	n := 0
+	for _, f := range fns {
+		n++
+		for _, b := range f.Blocks {
+			for _, in := range b.Instrs {
+				switch x := in.(type) {
+				case *ssa.Panic:
+					c.R.Fail("R-C18-3", c.fname(f)+":panic-reachable-from-handle", c.fname(f), c.pos(x.Pos()), "panic statement in a function reachable from Monitor.handle",
+						"handling a received message cannot panic", "a crafted or unusual received message crashes the monitor")
+				case *ssa.Call:
+					if callee := an.StaticCallee(&x.Call); callee != nil && an.NeverReturns(callee) && load.InModule(callee) {
+						c.R.Fail("R-C18-3", c.fname(f)+":panic-helper-reachable-from-handle", c.fname(f), c.pos(x.Pos()), "call of "+c.fname(callee)+", which always panics",
+							"handling a received message cannot panic", "a crafted or unusual received message crashes the monitor")
+					}
+				}
+			}
+		}
+	}
+	c.R.Check(n >= 2, "R-C18-3", c.fname(h)+":reachable-functions", c.fname(h), c.pos(h.Pos()), fmt.Sprintf("%d module function(s) reachable from handle, none can panic", n), ">= 2", "anchor-missing")
 }
